@@ -29,9 +29,6 @@ const immBase = 100000
 
 // fsub: address of field i of a struct of type T located at addr.
 func (e *Engine) fsub(addr string, T types.Type, i int) string {
-	if len(e.cs.ImmFields) == 0 {
-		return sub(addr, i)
-	}
 	n, ok := T.(*types.Named)
 	if !ok || n.Obj().Pkg() == nil {
 		return sub(addr, i)
@@ -42,6 +39,9 @@ func (e *Engine) fsub(addr string, T types.Type, i int) string {
 	}
 	if f := e.cs.ImmFields[n.Obj().Pkg().Path()+"."+n.Obj().Name()+"."+st.Field(i).Name()]; f != nil && f.Broken == "" {
 		return sub(addr, f.ID)
+	}
+	if a := e.privSub(addr, n, st, i); a != "" {
+		return a
 	}
 	return sub(addr, i)
 }
@@ -59,7 +59,18 @@ func immArray(addr string, s Sort) (string, bool) {
 	if _, err := fmt.Sscanf(parts[1], "%d", &id); err != nil || id < immBase {
 		return "", false
 	}
+	if id >= privBase {
+		return fmt.Sprintf("pf_%d_%s", id, s.Mangle()), true
+	}
 	return fmt.Sprintf("imm_%d_%s", id, s.Mangle()), true
+}
+
+func pfID(name string) int {
+	var id int
+	if _, err := fmt.Sscanf(name, "pf_%d_", &id); err != nil {
+		return 0
+	}
+	return id
 }
 
 func isImmAddr(addr string) bool {
